@@ -1,6 +1,7 @@
 from . import COMMON_TB
 
 CONFIG = dict(
+    also_release=True,
     harness="c15",
     comparisons=[
         dict(name="model", code=1500, kind="eq"),
